@@ -22,6 +22,7 @@ MUTANTS = {
  'm15_cli_style_option_dropped': ('pybtex/__main__.py', "        ext = path.splitext(filename)[1]", "        options['style'] = None\n        ext = path.splitext(filename)[1]"),
  'm16_bibdata_sorted_set': ('pybtex/__init__.py', "for filename in aux_data.data]", "for filename in sorted(set(aux_data.data))]"),
  'm17_bst_script_cache_by_name': ('pybtex/bibtex/__init__.py', "        bst_script = bst.parse_file(bst_filename, bst_encoding)\n", "        if (style, bst_encoding) not in _BST_CACHE:\n            _BST_CACHE[(style, bst_encoding)] = list(bst.parse_file(bst_filename, bst_encoding))\n        bst_script = _BST_CACHE[(style, bst_encoding)]\n"),
+ 'm18_aux_inputs_queued': ('pybtex/auxfile.py', "        self.parse_file(filename, toplevel=False)\n", "        self.__dict__.setdefault('_queued', []).append(filename)\n"),
  # must NOT alarm: renamed local, reordered independent statements, reworded messages
  'h1_harmless_refactoring': [
    ('pybtex/__init__.py', "        base_filename = path.splitext(aux_filename)[0]\n        bib_filenames = [filename + bib_format.default_suffix for filename in aux_data.data]\n",
@@ -42,6 +43,11 @@ def run(name):
         if s.count(old) != 1:
             print(name, 'PATCH DOES NOT APPLY (%d occurrences) in %s' % (s.count(old), f)); return
         open(p, 'w').write(s.replace(old, new))
+    if name.startswith('m18'):
+        p = os.path.join(d, 'pybtex/auxfile.py'); t = open(p).read()
+        old = "        if previous_context:\n"
+        assert t.count(old) == 1
+        open(p, 'w').write(t.replace(old, "        while self.__dict__.get('_queued'):\n            self.parse_file(self._queued.pop(0), toplevel=False)\n" + old))
     if name.startswith('m17'):
         p = os.path.join(d, 'pybtex/bibtex/__init__.py'); t = open(p).read()
         open(p, 'w').write(t.replace('class BibTeXEngine(Engine):', '_BST_CACHE = {}\n\n\nclass BibTeXEngine(Engine):'))
